@@ -459,22 +459,21 @@ theorem OK.meltQuoteState {m : MintView} (h : m.OK) (id : Nat) (script : List Ln
       · exact h
     · exact h
 
+theorem OK.checkStep {acc : MintView × List LnAns × List InvRef} (h : acc.1.OK) (q : Nat) : (checkStep acc q).1.OK :=
+  h.meltQuoteState _ _
+
 theorem OK.checkState {m : MintView} (h : m.OK) (ss : List SId) (script : List LnAns) :
     (m.checkState ss script).1.OK := by
   unfold MintView.checkState
   simp only
-  generalize dedupNat _ = quotes
-  suffices ∀ (acc : MintView × List LnAns × List InvRef), acc.1.OK →
-      (quotes.foldl (fun (acc : MintView × List LnAns × List InvRef) q =>
-        ((acc.1.meltQuoteState q acc.2.1).1, (acc.1.meltQuoteState q acc.2.1).2.2.1,
-          match (acc.1.meltQuoteState q acc.2.1).2.2.2 with | some i => acc.2.2 ++ [i] | none => acc.2.2)) acc).1.OK from
-    this _ h
+  generalize m.pendingQuotesOf ss = quotes
+  suffices ∀ (acc : MintView × List LnAns × List InvRef), acc.1.OK → (quotes.foldl MintView.checkStep acc).1.OK from this _ h
   induction quotes with
   | nil => intro acc ha; exact ha
   | cons q rest ih =>
     intro acc ha
     simp only [List.foldl_cons]
-    exact ih _ (ha.meltQuoteState _ _)
+    exact ih _ (OK.checkStep ha q)
 
 theorem OK.rotate {m : MintView} (h : m.OK) (ks : KsId) (ppk : UInt64) : (m.rotate ks ppk).OK :=
   h.of_eq rfl rfl rfl h.quoteOuts
